@@ -48,6 +48,12 @@ def quantize(model, modules=None, **kwargs):
             continue
         qmodule = quantize_module(m, **kwargs)
         if qmodule is not None:
+            if m is model:
+                # Quantization happens in-place: the model itself cannot be replaced by a quantized module
+                raise ValueError(
+                    f"A model that is itself a {m.__class__.__name__} cannot be quantized in place: "
+                    "wrap it in a container (for instance torch.nn.Sequential)."
+                )
             quantized[m] = qmodule
             set_module_by_name(model, name, qmodule)
             qmodule.name = name
